@@ -56,9 +56,13 @@ func c08Seeds(seed uint64, n int) []string {
 		`$match(s, /a(b)?c/i)`, `/[/]\//`, `/a{2,3}/m`, "`b c`.`and`", "a.`b`[0]", `function($x)<n-:n>{$x+1}`, `function($a,$b)<a<n>s?:s>{$b}`,
 		`λ($f)<f<n:n>>{$f(1)}`, `function($x)<(ns)+>{$x}`, `$x := 1; $x`, `($x := 1; $x)`, `a ? b : c`, `a[b=1].c{d: $sum(e)}`, `a^(<b, >c)`,
 		`|a|{"b":1},["c"]|`, `a ~> $f(1) ~> $g`, `[1..5]`, `{"a":1,"b":[1,2]}`, `a.*.**.b[]`, `$$.a.$.b`, `a and b or c in d`, `-a * -1`,
+		// partial applications whose bound arguments are paths, predicates and [] (nodes the
+		// optimiser rewrites), invoked so that the arguments are evaluated
+		`$substringBefore(?, a.sep)("foo-bar")`, `$append(?, a[0])(1)`, `$append(?, a[])(1)`, `"x" ~> $substringAfter(?, seps[0])`, `$append(a.b[c=1], ?)(2)`, `$zip(?, a.b, c[])([1])`,
+		`$map([1], $append(?, a.b))`, `$sum(?)(a.b)`, `function($x){$x}(?)(a.b[0])`,
 		`a.b.(c+1)`, `$f(?, 1)(2)`, `"a" & 1 & true`, `a != b`, `a <= b and c >= d`, `%`, `a % 2`,
 	)
-	for i := 0; len(out) < n+37; i++ {
+	for i := 0; len(out) < n+46; i++ {
 		r := prng.New(seed, 0xC08, uint64(i))
 		g := gen.NewChaos(r, 3, false)
 		_, s := g.Program(jast.Style{Space: r.Intn(2)})
@@ -149,6 +153,9 @@ func c08Input(i int64, tier string, seed uint64, seeds []string, nEx1, nEx2 int6
 		return "function(" + ps + ")<" + sb.String() + ">{1}", "signature-soup"
 	default: // single (or double) edit of a seed
 		s := seeds[r.Intn(len(seeds))]
+		if r.Intn(6) == 0 {
+			return s, "seed-unchanged"
+		}
 		s = mutate(r, s)
 		if r.Intn(4) == 0 {
 			s = mutate(r, s)
